@@ -427,6 +427,71 @@ PKG = {
 PKG_MODULES = ['pkg/m1.pyx', 'pkg/m2.pyx', 'pkg/m3.pyx', 'pkg/m4.pyx']
 
 
+PTEMPS = '''
+from cython.parallel cimport prange, parallel
+cimport cython
+from libc.stdlib cimport malloc, free
+
+cdef double work(double x) noexcept nogil:
+    return x * 2
+
+def psum(int n):
+    cdef int i
+    cdef double s = 0, t = 0
+    cdef long m = 0
+    cdef double* buf = <double*>malloc(n * sizeof(double))
+    for i in prange(n, nogil=True):
+        buf[i] = work(i) / (i + 1) + (i % 3) * (i // 2)
+        s += buf[i] if i % 2 else -buf[i]
+        t += work(buf[i]) ** 2
+        m += i // 3 + i % 5
+        with gil:
+            x = [i, buf[i]]
+            y = (x, len(x), str(i))
+    free(buf)
+    return s, t, m
+
+def ppar(int n):
+    cdef int i
+    cdef double acc = 0
+    cdef long cnt = 0
+    with nogil, parallel(num_threads=2):
+        for i in prange(n, schedule='dynamic'):
+            acc += (i / (n + 1.0)) * (i % 7) + i // 2
+            cnt += (i // 3) % 4
+        with gil:
+            z = {"a": n, "b": [n, acc]}
+    return acc, cnt
+'''
+
+# identically spelled extern declarations in several modules: type identifiers must be mangled per module
+SAMEDECL = '''
+cdef extern from *:
+    """
+    enum Color { RED, GREEN, BLUE };
+    typedef struct { int a; double b; } Pair;
+    """
+    cpdef enum Color:
+        RED
+        GREEN
+        BLUE
+    ctypedef struct Pair:
+        int a
+        double b
+
+def col(Color c):
+    return c
+
+def tup(Color c, int k):
+    cdef (Color, int) t = (c, k)
+    return t
+
+def pair(Pair p):
+    cdef (Pair, Color) q = (p, RED)
+    return q
+'''
+
+
 def corpus(tier):
     """-> (files {relpath: text}, modules [relpath])"""
     files = {}
@@ -457,6 +522,9 @@ def corpus(tier):
         add('gen2', GEN + CLOSURES, '.py')
         add('cls2', CDEFCLS + FUSED.replace('cimport cython', '', 1))
         add('mix', 'import cython\n' + PYCLASS + EXC + PUREPY.replace('import cython', '', 1), '.py')
+    add('ptemps', PTEMPS)                      # prange / parallel blocks with many private temporaries (no memoryviews)
+    for nm in ('alpha', 'beta', 'gamma'):      # same extern enum / struct / ctuple spelling in three modules
+        add(nm, SAMEDECL)
     # positions with equal (line, column) in two source files inside one scope, with tracing code emitted
     files['inc_part.pxi'] = 'def from_inc(x):\n    return x + 1\nINC = 5\n'
     add('inctrace', '# cython: linetrace=True\ninclude "inc_part.pxi"\ndef top(x):\n    return from_inc(x) + INC\nTOP = 6\n')
